@@ -5,6 +5,12 @@ or a type-checked structural rewrite.
 Every instance is recorded in the woven file (original text base64 in the marker) and
 listed in the evidence."""
 SHIMS = {
+    # type ascription only (rustc re-checks it): the woven invariants mention `result@[i]@` before inference has fixed the element type
+    'vec-new-string': dict(pattern=r'let mut result = Vec::new\(\);', replace=r'let mut result: Vec<String> = Vec::new();', spec='type ascription; no spec'),
+    # display(): is the first character of the cell text double-width?
+    'first-char-wide': dict(pattern=r'\bchar\s*\.chars\(\)\s*\.next\(\)\s*\.and_then\(\|c\| c\.width\(\)\)\s*\.is_some_and\(\|s\| s == 2\)', replace=r'first_char_is_wide(&char)',
+                            spec='r == (text non-empty && char_width(text[0]) == Some(2))'),
+    'push-str': dict(pattern=r'\bresult\.push_str\(&char\);', replace=r'string_push_str(&mut result, &char);', spec="result' == result + s"),
     # lazy_static tables: the deref+clone is called out; the table *contents* are proved on the Kani side (C20 / mode constants)
     'default-mode-clone': dict(pattern=r'_DEFAULT_MODE\.clone\(\)', replace=r'default_mode_clone()', spec='r@ == {DECAWM, DECTCEM}'),
     'lat1-clone': dict(pattern=r'LAT1_MAP\.clone\(\)', replace=r'lat1_map_clone()', spec='r == lat1_map() (uninterpreted table; contents proved by Kani)'),
